@@ -1,7 +1,7 @@
 (** L0/L1: entity values as graph nodes (sqllineage/core/models.py) and the subset
     of networkx.DiGraph the library uses, as insertion-ordered lists keyed by
     *Python equality* of the nodes (the first representative is kept). *)
-From SV Require Export Ident.Escape.
+From SV Require Export Ident.Escape Tree.Seg.
 
 (** * Entities *)
 Inductive dkind := KTable | KPath | KSubq.
@@ -10,7 +10,12 @@ Scheme Equality for dkind.
 (** [deq] is what Python equality compares (str(table), uri, raw query text);
     [dstr] is what str() prints (for a SubQuery: its alias); [dschema] the schema
     of a Table ("" otherwise). *)
-Record dataset := { dk : dkind; deq : string; dstr : string; dschema : string }.
+Record dataset := {
+  dk : dkind; deq : string; dstr : string; dschema : string;
+  draw : string;            (* Table.raw_name *)
+  dalias : string;          (* Table.alias / SubQuery.alias *)
+  dquery : option seg       (* SubQuery.query (the segment), never compared *)
+}.
 
 Definition dataset_eqb (a b : dataset) : bool := dkind_beq (dk a) (dk b) && String.eqb (deq a) (deq b).
 
